@@ -561,6 +561,8 @@ func runC01(c *Ctx) {
 	checkNormalizeArgs(c)
 	c.Rule("R01k", ruleTextFKActions, 4)
 	checkFKActionGuards(c, "R01k", []string{pSqlite, pMysql, pPostgres})
+	c.Rule("R01q", ruleTextColumnAttrCoverage, 2)
+	checkColumnAttrCoverage(c, "R01q")
 	c.Rule("R01n", ruleTextCheckWrap, 3)
 	checkCheckWrap(c, "R01n")
 	c.Rule("R01o", ruleTextImplicitIndexDrop, 1)
